@@ -109,12 +109,17 @@ def gen_fit(rng):
         return r
     est.iCVI_match = wrapped
     ok, err = True, None
+    # a caller-supplied reset function that never objects: the gate still decides (and the search is the same)
+    user = (lambda *a, **kw: True) if rng.random() < 0.4 else None
     try:
         with np.errstate(all="ignore"):
-            est.fit(X, match_tracking=mode, epsilon=float(eps))
+            if user is not None:
+                est.fit(X, match_reset_func=user, match_tracking=mode, epsilon=float(eps))
+            else:
+                est.fit(X, match_tracking=mode, epsilon=float(eps))
     except Exception as e:
         ok, err = False, type(e).__name__ + ": " + str(e)[:80]
-    summ = {"estimator": "iCVIFuzzyART", "rho": str(rho), "offline": offline, "mode": mode, "eps": str(eps), "X": [[str(v) for v in r] for r in rows]}
+    summ = {"estimator": "iCVIFuzzyART", "rho": str(rho), "offline": offline, "match_reset_func": "always True" if user else None, "mode": mode, "eps": str(eps), "X": [[str(v) for v in r] for r in rows]}
     fails = []
     # the same-label shortcut and the k < 2 convention (both 0) are exact in the model too; other near-ties are not judged
     robust = all(same or (new == 0.0 and old == 0.0) or abs(new - old) > 1e-9 * (1 + abs(old)) for _, _, _, new, old, same in calls)
